@@ -59,9 +59,9 @@ APIS = ["text", "pages", "fp_text", "fp_xml"]
 def minimums(tier: str) -> Dict[str, int]:
     if tier == "quick":
         return {"evaluations": 4000, "distinct": 150, "calls_compared": 4000, "fingerprint_checks": 4000, "interleaved_pages": 300,
-                "seen:docs_used": 32, "page_at_a_time_calls": 300, "caching_off_calls": 800}
+                "seen:docs_used": 37, "page_at_a_time_calls": 300, "caching_off_calls": 800}
     return {"evaluations": 100000, "distinct": 3000, "calls_compared": 90000, "fingerprint_checks": 90000, "interleaved_pages": 8000,
-            "seen:docs_used": 32, "page_at_a_time_calls": 9000, "caching_off_calls": 25000}
+            "seen:docs_used": 37, "page_at_a_time_calls": 9000, "caching_off_calls": 25000}
 
 
 # --------------------------------------------------------------------------
@@ -255,6 +255,46 @@ def build_pool() -> List[Dict[str, Any]]:
         fform = fd.add(Stream(fd_form, fdata))
         fcont = b"BT /F1 12 Tf 30 200 Td (on the page) Tj ET q /Fm0 Do Q"
         add(fname, page_doc([{"content": fcont, "resources": {"Font": {"F1": ffont}, "XObject": {"Fm0": fform}}, "mediabox": [0, 0, 300, 300]}] * 2, doc=fd).build(), "forms")
+    # a page that leaves non-default line width, dash pattern and colours behind (outside q..Q), followed by pages
+    # that paint before setting any of them: every page starts from the initial graphics state
+    gcont1 = b"3 w [4 2] 1 d 1 0 0 RG 0 1 0 rg 2 J 10 10 m 200 10 l S 20 20 60 40 re B BT /F1 12 Tf 30 200 Td (first) Tj ET"
+    gcont2 = b"10 50 m 200 50 l S 20 80 60 40 re B BT /F1 12 Tf 30 200 Td (second) Tj ET"
+    gres = {"Font": {"F1": font_type1("Helvetica")}}
+    add("gstate-carry", page_doc([{"content": gcont1, "resources": gres, "mediabox": [0, 0, 300, 300]},
+                                  {"content": gcont2, "resources": gres, "mediabox": [0, 0, 300, 300]},
+                                  {"content": gcont2.replace(b"second", b"third"), "resources": gres, "mediabox": [0, 0, 300, 300]}]).build(), "misc")
+    # pages sharing ONE indirect /Contents array (and a page sharing one of its streams): nothing a page's rendering
+    # does to the array or the streams may show on the next page, with or without object caching
+    sc = Doc()
+    sc1 = sc.add(Stream({}, b"BT /F1 12 Tf 30 200 Td (shared "))
+    sc2 = sc.add(Stream({}, b"contents) Tj ET 10 10 50 20 re S"))
+    scarr = sc.add([sc1, sc2])
+    scres = {"Font": {"F1": font_type1("Helvetica")}}
+    add("shared-contents-array", page_doc([{"content": b"", "resources": scres, "mediabox": [0, 0, 300, 300], "extra": {"Contents": scarr}},
+                                           {"content": b"", "resources": scres, "mediabox": [0, 0, 300, 300], "extra": {"Contents": scarr}},
+                                           {"content": b"", "resources": scres, "mediabox": [0, 0, 300, 300], "extra": {"Contents": [sc1, sc2]}},
+                                           {"content": b"", "resources": scres, "mediabox": [0, 0, 300, 300], "extra": {"Contents": scarr}}], doc=sc).build(), "misc")
+    # two documents whose content streams are LZW-coded (several hundred codes each, different dictionaries): the decoder's
+    # tables are per stream, whatever was decoded before in the process
+    from vf.ref.filters import lzw_encode
+    for lname, ltexts in (("lzw-a", [b"alpha beta gamma %d" % i for i in range(60)]), ("lzw-b", [b"ZYX wvu %d tsr QPO" % (i * 7) for i in range(70)])):
+        lpages = []
+        for half in (ltexts[: len(ltexts) // 2], ltexts[len(ltexts) // 2:]):
+            lc = b"BT /F1 6 Tf 20 290 Td 7 TL " + b" ".join(b"(" + t + b") Tj T*" for t in half) + b" ET"
+            lpages.append({"content": Stream({"Filter": N("LZWDecode")}, lzw_encode(lc)), "resources": {"Font": {"F1": font_type1("Helvetica")}},
+                           "mediabox": [0, 0, 300, 300]})
+        add(lname, page_doc(lpages).build(), "lzw")
+    # an RC4 document whose two pages paint the same form XObject: with caching off the stream is decrypted once per use
+    rd4 = Doc()
+    rfont4 = rd4.add(font_type1("Helvetica"))
+    rform4 = rd4.add(Stream({"Type": N("XObject"), "Subtype": N("Form"), "BBox": [0, 0, 300, 300], "Resources": {"Font": {"F1": rfont4}}},
+                            b"BT /F1 10 Tf 30 100 Td (shared form text) Tj ET"))
+    rres4 = {"Font": {"F1": rfont4}, "XObject": {"Fm0": rform4}}
+    rdoc4 = page_doc([{"content": b"BT /F1 12 Tf 30 200 Td (page one) Tj ET /Fm0 Do", "resources": rres4, "mediabox": [0, 0, 300, 300]},
+                      {"content": b"BT /F1 12 Tf 30 200 Td (page two) Tj ET /Fm0 Do", "resources": rres4, "mediabox": [0, 0, 300, 300]}],
+                     doc=rd4, info={"Title": b"rc4 shared form", "Author": b"second string"})
+    enc = StdEncryptor(2, 3, 128, None, b"", b"owner", -3904, random.Random(1203), id0=b"0123456789abcdeF", id1=b"0123456789abcdeF")
+    add("rc4-shared-form", rdoc4.build(encryptor=enc), "crypt")
     # encrypted twins of plain-WinAnsiEncoding (same text, same object numbers)
     tw = _simple_doc(dict(helv, Encoding=N("WinAnsiEncoding")), t2)
     enc = StdEncryptor(2, 3, 128, None, b"", b"owner", -3904, random.Random(1201), id0=b"0123456789abcdef", id1=b"0123456789abcdef")
@@ -282,7 +322,7 @@ def tree_sig(item: Any) -> Any:
         return sig
     if isinstance(item, LTCurve):
         sig += [[repr(p) for p in item.pts], item.stroke, item.fill, repr(item.linewidth),
-                repr(item.stroking_color), repr(item.non_stroking_color)]
+                repr(item.stroking_color), repr(item.non_stroking_color), repr(getattr(item, "dashing_style", None))]
         return sig
     if isinstance(item, LTImage):
         sig += [_stable_name(item.name), repr(item.srcsize), hashlib.md5(item.stream.get_data()).hexdigest()]
